@@ -158,6 +158,7 @@ let case_udiff h : string =
   let via = get h "via" in
   let hint = if via = "fn" then true else get h "hint" = "1" in
   let lossy_values = via = "display" && bytes_mode h in
+  (* "writer1" = the same writer output through a sink that takes one byte per write call *)
   let out = unres (render_udiff d.olds d.news d.nt hint lossy_values d.ops radius header) in
   if via = "display" then
     let w = unres (render_udiff d.olds d.news d.nt hint false d.ops radius header) in
